@@ -11,7 +11,7 @@ from __future__ import annotations
 import ast
 
 from ..astutil import deref, body_always_raises, calls_in, dotted, enclosing_stmt, is_within, kwarg, src, walk_local
-from ..cfg import cfg_of
+from ..cfg import cfg_of, deref_at
 from ..loader import AnalysisError
 from ..terms import Evaluator, alts, contains, find, show, strip_sites, walk
 from .common import func_label, loc, repo_cls, self_calls
@@ -41,7 +41,9 @@ def _name_shape(t, path_term):
 def r1_one_name(ctx):
     corpus = ctx.corpus
     cls = repo_cls(corpus)
-    for nm, param in (('_format_snapshot_name', 'path'), ('_format_file_snapshot_name', 'snapshot_path')):
+    from .common import listing_getter_roles
+
+    for nm, param in (('_format_snapshot_name', listing_getter_roles(corpus, 'list_snapshots').get('path', 'path')), ('_format_file_snapshot_name', listing_getter_roles(corpus, 'list_files').get('path', 'snapshot_path'))):
         f = corpus.method(cls, nm)
         if f is None:
             raise AnalysisError(f'C15.R1: {nm} missing')
@@ -73,6 +75,9 @@ def r1_one_name(ctx):
                 if isinstance(v, ast.Call) and dotted(v.func) == 'str':
                     continue
                 if isinstance(v, ast.Call) and isinstance(v.func, ast.Name) and any(k.arg in ('path', 'snapshot_path') for k in v.keywords):
+                    continue
+                # the placeholder for a missing value: assigned only where the cell is None
+                if isinstance(v, (ast.Attribute, ast.Constant)) and any(isinstance(i, ast.If) and isinstance(i.test, ast.Compare) and len(i.test.ops) == 1 and isinstance(i.test.left, ast.Name) and i.test.left.id == cell and isinstance(i.test.comparators[0], ast.Constant) and i.test.comparators[0].value is None and ((isinstance(i.test.ops[0], ast.Is) and any(x is n for b_ in i.body for x in ast.walk(b_))) or (isinstance(i.test.ops[0], ast.IsNot) and any(x is n for b_ in i.orelse for x in ast.walk(b_)))) for i in _anc(n)):
                     continue
                 bad.append(n)
         slices = [n for n in walk_local(f.node) if isinstance(n, ast.Subscript) and isinstance(n.slice, ast.Slice) and isinstance(n.value, ast.Name) and n.value.id == cell]
@@ -142,6 +147,26 @@ def _ts_key_ok(key, allow_or_empty=False):
     if isinstance(cur, ast.Name) and chain in (['data', 'utc_timestamp'], [0]):
         return True, chain
     return False, f'sort key `{src(key.body)}` is not the stored timestamp'
+
+
+def _sort_selector(key):
+    """which component of a row the sort key selects: ('idx', 0) for x[0] / itemgetter(0), ('attr', name) for x.name /
+    attrgetter(name) - optionally `... or ''` for rows without a timestamp"""
+    if isinstance(key, ast.Call) and (dotted(key.func) or '').endswith('itemgetter') and len(key.args) == 1 and isinstance(key.args[0], ast.Constant) and key.args[0].value == 0:
+        return ('idx', 0), None
+    if isinstance(key, ast.Call) and (dotted(key.func) or '').endswith('attrgetter') and len(key.args) == 1 and isinstance(key.args[0], ast.Constant):
+        return ('attr', key.args[0].value), None
+    if not isinstance(key, ast.Lambda):
+        return None, 'sort key is neither a lambda nor an itemgetter / attrgetter'
+    b = key.body
+    if isinstance(b, ast.BoolOp) and isinstance(b.op, ast.Or) and len(b.values) == 2 and isinstance(b.values[1], ast.Constant) and b.values[1].value == '':
+        b = b.values[0]
+    arg = key.args.args[0].arg if key.args.args else None
+    if isinstance(b, ast.Subscript) and isinstance(b.value, ast.Name) and b.value.id == arg and isinstance(b.slice, ast.Constant) and b.slice.value == 0:
+        return ('idx', 0), None
+    if isinstance(b, ast.Attribute) and isinstance(b.value, ast.Name) and b.value.id == arg:
+        return ('attr', b.attr), None
+    return None, f'sort key `{src(key.body)}` does not select one component of the row'
 
 
 def r2_order(ctx):
@@ -216,21 +241,35 @@ def r2_order(ctx):
         var = ss[0].func.value.id if ss else None
         ctx.floor('C15.R2', f'sort in {cmd}', len(ss))
         for c in ss:
-            ok, why = _ts_key_ok(kwarg(c, 'key'), allow_or_empty=True)
+            sel, why = _sort_selector(kwarg(c, 'key'))
+            ok = sel is not None
             rev = kwarg(c, 'reverse')
             okr = isinstance(rev, ast.Constant) and rev.value is True
-            # element 0 of the appended tuples is the stored timestamp
+            # the selected component of the collected rows is the stored timestamp
             okt = False
             for a in calls_in(f.node):
-                if isinstance(a.func, ast.Attribute) and a.func.attr == 'append' and isinstance(a.func.value, ast.Name) and a.func.value.id == var and a.args and isinstance(a.args[0], ast.Tuple):
-                    first = a.args[0].elts[0]
-                    if isinstance(first, ast.Subscript) and isinstance(first.slice, ast.Constant) and first.slice.value == 'utc_timestamp':
-                        okt = True
-                    if isinstance(first, ast.Name):
-                        for asg in walk_local(f.node):
-                            if isinstance(asg, ast.Assign) and any(isinstance(t, ast.Name) and t.id == first.id for t in asg.targets):
-                                if isinstance(asg.value, ast.Subscript) and isinstance(asg.value.slice, ast.Constant) and asg.value.slice.value == 'utc_timestamp':
-                                    okt = True
+                if isinstance(a.func, ast.Attribute) and a.func.attr == 'append' and isinstance(a.func.value, ast.Name) and a.func.value.id == var and a.args:
+                    row = a.args[0]
+                    first = None
+                    if isinstance(row, ast.Tuple) and sel == ('idx', 0) and row.elts:
+                        first = row.elts[0]
+                    elif isinstance(row, ast.Call) and isinstance(row.func, ast.Name):
+                        rc = f.module.classes.get(row.func.id)
+                        fields = [st.target.id for st in rc.node.body if isinstance(st, ast.AnnAssign) and isinstance(st.target, ast.Name)] if rc is not None else []
+                        idx = 0 if sel == ('idx', 0) else (fields.index(sel[1]) if sel is not None and sel[0] == 'attr' and sel[1] in fields else None)
+                        if sel is not None and sel[0] == 'attr':
+                            kwv = kwarg(row, sel[1])
+                            if kwv is not None:
+                                first = kwv
+                        if first is None and idx is not None and idx < len(row.args):
+                            first = row.args[idx]
+                        if first is None and idx is not None and fields and idx < len(fields):
+                            first = kwarg(row, fields[idx])
+                    if first is not None:
+                        fv = deref_at(f.node, first) if isinstance(first, ast.Name) else first
+                        cands = [fv.body, fv.orelse] if isinstance(fv, ast.IfExp) else [fv]
+                        if any(isinstance(x, ast.Subscript) and isinstance(x.slice, ast.Constant) and x.slice.value == 'utc_timestamp' for x in cands):
+                            okt = True
             ctx.check(
                 ok and okr and okt,
                 'C15.R2',
